@@ -42,7 +42,8 @@ def numpy_counts(xyz, radii, pts):
 def make_system(md, rng, n_atoms):
     top = md.Topology()
     ch = top.add_chain()
-    els = ["C", "N", "O", "H", "S"]
+    # mostly organic elements, plus ions and metals: the documented radii table (_ATOMIC_RADII) differs from Element.radius for about two dozen of them
+    els = ["C", "N", "O", "H", "S"] * 3 + ["P", "Na", "K", "Cl", "Mg", "Ca", "Li", "Zn", "Fe", "Cs", "Ba", "Be", "F", "Br", "I"]
     r = None
     for a in range(n_atoms):
         if a % 4 == 0:
